@@ -2,10 +2,10 @@
 use parol::build::Builder;
 fn main() {
     // the crate directory is generated afresh on every run: a missing output must re-run this script
-    for p in ["ll", "lr", "ll_t", "lr_t"] { for f in ["parser.rs", "grammar_trait.rs"] { println!("cargo:rerun-if-changed=src/gen/{p}_{f}"); } }
+    for p in ["ll", "lr", "ll_t", "lr_t", "ll_n"] { for f in ["parser.rs", "grammar_trait.rs"] { println!("cargo:rerun-if-changed=src/gen/{p}_{f}"); } }
     println!("cargo:rerun-if-changed=build.rs");
-    // four parsers: LL(k) and LALR(1), each with the full parse tree and with `trim_parse_tree`
-    for (g, p, ty) in [("g_ll.par", "ll", "LlGrammar"), ("g_lr.par", "lr", "LrGrammar"), ("g_ll.par", "ll_t", "LlTGrammar"), ("g_lr.par", "lr_t", "LrTGrammar")] {
+    // five parsers: LL(k) and LALR(1), each with the full parse tree and with `trim_parse_tree`, and LL(k) with recovery disabled
+    for (g, p, ty) in [("g_ll.par", "ll", "LlGrammar"), ("g_lr.par", "lr", "LrGrammar"), ("g_ll.par", "ll_t", "LlTGrammar"), ("g_lr.par", "lr_t", "LrTGrammar"), ("g_ll.par", "ll_n", "LlNGrammar")] {
         std::fs::create_dir_all("src/gen").unwrap();
         let mut b = Builder::with_explicit_output_dir("src/gen");
         b.grammar_file(g)
@@ -15,6 +15,7 @@ fn main() {
             .user_trait_module_name(&format!("{p}_grammar"));
         b.max_lookahead(3).unwrap();
         if p.ends_with("_t") { b.trim_parse_tree(); }
+        if p.ends_with("_n") { b.disable_recovery(); }
         if let Err(e) = b.generate_parser() {
             panic!("parol failed on {g}: {e:?}");
         }
